@@ -305,7 +305,8 @@ def TBoundedInteger(num_bits, type_name):
         __type_name__ = type_name
 
         class Attributes(Integer.Attributes):
-            max_str_len = math.ceil(math.log(2**num_bits, 10))
+            # +1 for the sign
+            max_str_len = math.ceil(math.log(2**num_bits, 10)) + 1
             min_bound = _min_b
             max_bound = _max_b
 
